@@ -177,10 +177,10 @@ pub fn registry() -> Vec<Entry> {
         entry::<c18::C18>(
             "C18",
             1700,
-            480,
-            20_000,
-            "single- and multi-file programs (four sources, optional malformed lines, optional include split, all surface styles incl. leading blank lines, tabs and comments) written to a scratch directory and linted by the rva binary (dev, one in four release) in 8 modes: compact / pretty / JSON x default / --all-files, plus colour variants. Checked: JSON parses with the documented shape (unknown fields rejected); compact, pretty and JSON show the same (file, line, columns, severity, title) items under the same file selection; 'found in other files' counts; pretty and compact list the same items in the same order; each pretty excerpt is the source line with the marker under the reported columns; colour output minus ANSI equals --no-color; items are ordered by position within each file; titles non-empty; one severity per kind; RVParser::run over an in-memory reader with the same files gives the CLI's --all-files list. Non-trivial = >= 2 diagnostics.",
-            &["JSON carries no file filter: it is compared with --all-files output and, filtered to the base file, with the default output", "a CLI crash or non-zero exit is counted here and reported by C06"],
+            1600,
+            40_000,
+            "single- and multi-file programs (four sources, optional malformed lines, optional include split, all surface styles incl. leading blank lines, tabs and comments, one in six with CRLF line ends, one in eight with an include of a file that does not exist) written to a scratch directory and linted by the rva binary (dev, one in four release) in 8 modes: compact / pretty / JSON x default / --all-files, plus colour variants. Checked: JSON parses with the documented shape (unknown fields rejected); compact, pretty and JSON show the same (file, line, columns, severity, title) items under the same file selection; 'found in other files' counts; pretty and compact list the same items in the same order; each pretty excerpt is the source line with the marker under the reported columns; colour output minus ANSI equals --no-color; items are ordered by position within each file; titles non-empty; one severity per kind; RVParser::run over an in-memory reader with the same files gives the CLI's --all-files list. Non-trivial = >= 2 diagnostics.",
+            &["JSON carries no file filter: it is compared with --all-files output and, filtered to the base file, with the default output", "an input on which every CLI mode fails is counted and left to C06; a mode that fails while another one prints its diagnostics is a disagreement between channels", "the wording of a failed include depends on the reader (file system vs in-memory) and is not compared between the library call and the CLI; its position, severity and file are"],
         ),
         entry::<c19::C19>(
             "C19",
